@@ -260,7 +260,7 @@ def w_direction(cfg, tier):
 ETAS = ['0.25', '0.5', '1', '1.5', '3', '10', 'inf']
 
 
-def run_generate(cli, etas, sizes, prob, bias, code_class, deformation_name, label):
+def run_generate(cli, etas, sizes, prob, bias, code_class, deformation_name, label, decoder=None):
     """Call the real generate_input callback on an in-memory file system; returns {filename: text}."""
     files = {}
 
@@ -294,8 +294,9 @@ def run_generate(cli, etas, sizes, prob, bias, code_class, deformation_name, lab
     cli.os = Os()
     try:
         import panqec.codes as pc
-        decoder = 'MatchingDecoder' if getattr(pc, code_class).dimension == 2 and 'Color' not in code_class \
-            else 'BeliefPropagationOSDDecoder'
+        if decoder is None:
+            decoder = 'MatchingDecoder' if getattr(pc, code_class).dimension == 2 and 'Color' not in code_class \
+                else 'BeliefPropagationOSDDecoder'
         cli.generate_input.callback('/data', sizes, decoder, bias, ','.join(etas), prob,
                                     code_class, 'PauliErrorModel', deformation_name, 'direct', label)
     finally:
@@ -349,6 +350,15 @@ def simulations_on_disk(files, with_deformation=False):
     return sorted(out, key=str) if with_deformation else sorted(out)
 
 
+def decoders_on_disk(files):
+    from panqec.simulation import read_input_dict
+    out = set()
+    for name, text in files.items():
+        for sim in read_input_dict(json.loads(text), output_file=None)._simulations:
+            out.add(type(sim.decoder).__name__)
+    return out
+
+
 def w_files(cfg, tier):
     """cfg = 'files len=<m> bias=<B>': the list of bias ratios is chosen by the solver (indices into
     a fixed alphabet, pairwise distinct); realised — the space is finite and small."""
@@ -357,6 +367,7 @@ def w_files(cfg, tier):
     m, bias = int(parts['len']), parts['bias']
     sizes, prob = parts.get('sizes', '2x2,3x3'), parts.get('prob', '0.1,0.2')
     code_class = parts.get('code', 'Toric2DCode')
+    decoder = parts.get('decoder')          # --decoder_class: every registered decoder is a valid choice
     col = hz.Collector(cfg)
     col.encoded(cli.generate_input.callback, cli.read_bias_ratios)
     eng = Engine(name=cfg, max_paths=500)
@@ -367,7 +378,7 @@ def w_files(cfg, tier):
 
         def fn():
             etas = [ETAS[int(i)] for i in idx]
-            files = run_generate(cli, etas, sizes, prob, bias, code_class, None, None)
+            files = run_generate(cli, etas, sizes, prob, bias, code_class, None, None, decoder=decoder)
             return etas, files
         ps = eng.explore(fn)
     col.absorb(eng)
@@ -381,6 +392,8 @@ def w_files(cfg, tier):
         try:
             got = simulations_on_disk(files)
             ok = got == expected_simulations(etas, sizes, prob, bias, code_class)
+            if ok and decoder:
+                ok = decoders_on_disk(files) == {decoder}
         except Exception as ex:
             ok = False
         if not ok and first_bad is None:
@@ -389,7 +402,7 @@ def w_files(cfg, tier):
 
     def wit(mo):
         return dict(etas=[ETAS[mo.eval(i.t, model_completion=True).as_long()] for i in idx], sizes=sizes,
-                    prob=prob, bias=bias, code=code_class)
+                    prob=prob, bias=bias, code=code_class, decoder=decoder)
     col.prove('C19/generate_input/read-back-simulations-are-sizes-x-ratios-x-rates', eng.base, z3_or(bad), wit,
               f'{len(ps)} solver-chosen bias-ratio lists of length {m}: files on disk, parsed by read_input_dict, '
               'contain one simulation per (size, bias ratio, error rate) and nothing else')
@@ -488,10 +501,13 @@ def replay(path):
                 res = worker(cfg)
                 bad = any(o['oid'] == oid and o['verdict'] == 'sat' for o in res['obs'])
         elif cfg.startswith('files'):
-            files = run_generate(cli, w['etas'], w['sizes'], w['prob'], w['bias'], w.get('code', 'Toric2DCode'), None, None)
+            files = run_generate(cli, w['etas'], w['sizes'], w['prob'], w['bias'], w.get('code', 'Toric2DCode'), None, None,
+                                 decoder=w.get('decoder'))
             print('files written:', sorted(files))
             bad = simulations_on_disk(files) != expected_simulations(w['etas'], w['sizes'], w['prob'], w['bias'],
                                                                       w.get('code', 'Toric2DCode'))
+            if not bad and w.get('decoder'):
+                bad = decoders_on_disk(files) != {w['decoder']}
         elif cfg.startswith('arange-model'):
             bad = True
     except Exception as ex:
@@ -511,6 +527,12 @@ def configs(tier):
     out += [f'range k={k} j={j} c={c} r={r}' for k, j, c, r in grid]
     out += [f'direction bias={b}' for b in 'XYZ']
     out += ['history bias=Z'] + (['history bias=X', 'history bias=Y'] if tier != 'quick' else [])
+    # every registered decoder class as --decoder_class (on a code it supports)
+    out += ['files len=1 bias=Z decoder=MemoryBeliefPropagationDecoder', 'files len=1 bias=Z decoder=UnionFindDecoder',
+            'files len=1 bias=X decoder=BeliefPropagationOSDDecoder',
+            'files len=1 bias=Z sizes=2x2x2 code=Toric3DCode decoder=SweepMatchDecoder prob=0.1',
+            'files len=1 bias=Z sizes=2x2x2 code=RotatedPlanar3DCode decoder=RotatedSweepMatchDecoder prob=0.1',
+            'files len=1 bias=Z sizes=2x2x2 code=XCubeCode decoder=XCubeMatchingDecoder prob=0.1']
     out += ['files len=1 bias=Z', 'files len=2 bias=Z', 'files len=1 bias=X sizes=2x3,3x2,4 prob=0.1:0.3:0.1',
             'files len=1 bias=Y sizes=2x3x4,3x2x2,2 code=Toric3DCode prob=0.05'] + \
         (['files len=3 bias=X', 'files len=2 bias=Y', 'files len=2 bias=Z sizes=3x2x4,2x2x3 code=Planar3DCode'] if tier != 'quick' else [])
